@@ -59,28 +59,7 @@ KINDS = ("now", "rel", "reltd", "abs")
 # ---------------------------------------------------------------------------------------------
 # program interpreter
 # ---------------------------------------------------------------------------------------------
-def number(threads):
-    """Pre-order numbering of the schedule operations: {id(op list node)} is avoided, we return a parallel tree of
-    sids.  meta[sid] = (on, kind, d)."""
-    meta = []
-
-    def walk(ops):
-        out = []
-        for op in ops:
-            if op[0] == "s":
-                sid = len(meta)
-                meta.append((op[1], op[2], op[3]))
-                out.append((sid, walk(op[4])))
-            else:
-                out.append(None)
-        return out
-
-    return [walk(t) for t in threads], meta
-
-
-def now_us():
-    d = det.now() - det.EPOCH
-    return (d.days * 86400 + d.seconds) * 1000000 + d.microseconds
+number, now_us = schedrun.number, schedrun.now_us
 
 
 class World:
@@ -448,7 +427,9 @@ def _det_enum(tier):
 
 
 _KD2 = [["now", 0], ["now", 0], ["now", 0], ["rel", 0], ["rel", 1], ["reltd", 2], ["abs", 0], ["abs", 2], ["abs", -1]]
-_det_gen = st.sampled_from([["t"], ["t"], ["t"], ["c"], ["c", "t"], ["c", "t"], ["g"], ["c", "g", "t"]]).flatmap(
+# 'g' (the per-thread singleton) needs fresh OS threads for every run (20-40x slower on a loaded machine): keep its share small
+_DET_ONS = [["t"]] * 5 + [["c"]] * 3 + [["c", "t"]] * 6 + [["g"], ["c", "g", "t"]]
+_det_gen = st.sampled_from(_DET_ONS).flatmap(
     lambda ons: st.builds(
         lambda a, b, s: {"threads": [a, b], "sched": s},
         _ops(2, ons, 3, _KD2).filter(_has_s),
@@ -461,7 +442,7 @@ _det_gen = st.sampled_from([["t"], ["t"], ["t"], ["c"], ["c", "t"], ["c", "t"], 
 def checks(tier):
     return [
         Check("tree-enum", run_tree, cases=_tree_enum, shards={"quick": 8, "thorough": 16}, exhaustive=True),
-        Check("tree", run_tree, strategy=_tree, examples={"quick": 4000, "thorough": 16 * 40000}, shards={"quick": 8, "thorough": 16}),
+        Check("tree", run_tree, strategy=_tree, examples={"quick": 3000, "thorough": 16 * 25000}, shards={"quick": 8, "thorough": 16}),
         Check("det-enum", run_det, cases=_det_enum, shards={"quick": 8, "thorough": 16}, exhaustive=True),
-        Check("det-gen", run_det, strategy=_det_gen, examples={"quick": 5000, "thorough": 16 * 12000}, shards={"quick": 8, "thorough": 16}),
+        Check("det-gen", run_det, strategy=_det_gen, examples={"quick": 3200, "thorough": 16 * 10000}, shards={"quick": 8, "thorough": 16}),
     ]
